@@ -91,6 +91,20 @@ def pack_problem(Q, b, c, g, gw, x0, L0, cplx, flavour="crafted"):
     }
 
 
+def gen_barrier_problem(rng):
+    """domain-restricted loss: f(x) = 1/2 x'Qx + b'x + c - w*sum(log x), defined for x > 0 only (NaN outside).  A small L0
+    makes the first candidates leave the domain: f(z) = NaN is never accepted, the searches must backtrack; the other
+    policies may step outside and then see NaN inner products (fall back)."""
+    n = int(rng.integers(1, 4))
+    Q = np.diag(rng.integers(0, 7, size=n) / 2.0)
+    b = common.dyadic(rng, (n,), bits=3, scale=3.0)
+    x0 = (rng.integers(1, 9, size=n) / 4.0).astype(np.float64)
+    g = ["zero", "zero", "l1"][int(rng.integers(0, 3))]
+    p = pack_problem(Q, b, 0.0, g, float(rng.integers(1, 5)) / 8.0, x0, float([0.125, 0.25, 0.5, 1.0, 4.0][int(rng.integers(0, 5))]), False, "log-barrier")
+    p["barrier"] = float([0.5, 1.0, 2.0][int(rng.integers(0, 3))])
+    return p
+
+
 def scaled_case(case, k):
     """the same problem with the loss multiplied by 2^k (Q, b, c), L0 by 2^k and the weight of g by 2^k: exact in
     binary arithmetic, every iterate is unchanged and every L, remembered ratio, f-value is multiplied by 2^k
@@ -103,6 +117,8 @@ def scaled_case(case, k):
     c["L0"] = float(case["L0"] * f)
     if case["g"] in ("l1", "sql2"):
         c["gw"] = float(case["gw"] * f)
+    if case.get("barrier"):
+        c["barrier"] = float(case["barrier"] * f)
     c["scale_k"] = int(k) + int(case.get("scale_k", 0))
     return c
 
@@ -229,14 +245,18 @@ def quad_class():
         has_eval = True
         has_prox = False
 
-        def __init__(self, Q, b, c):
+        def __init__(self, Q, b, c, w=0.0):
             self.Q = snp.array(Q)
             self.b = snp.array(b)
             self.c = c
+            self.w = w  # weight of the logarithmic barrier -w*sum(log x): f is NaN outside x > 0 (domain-restricted loss)
             super().__init__()
 
         def __call__(self, x):
-            return 0.5 * snp.real(snp.sum(x.conj() * (self.Q @ x))) + snp.real(snp.sum(self.b.conj() * x)) + self.c
+            val = 0.5 * snp.real(snp.sum(x.conj() * (self.Q @ x))) + snp.real(snp.sum(self.b.conj() * x)) + self.c
+            if self.w:
+                val = val - self.w * snp.sum(snp.log(x))
+            return val
 
     _QUAD["cls"] = Quad
     return Quad
@@ -279,7 +299,7 @@ def make_solver(case):
     from scico.optimize import PGM, AcceleratedPGM
 
     Q, b, x0 = unpack(case)
-    f = quad_class()(Q, b, case["c"])
+    f = quad_class()(Q, b, case["c"], float(case.get("barrier", 0.0)))
     cls = AcceleratedPGM if case["accel"] else PGM
     pol = make_policy(case["policy"])
     s = cls(f=f, g=make_g(case), L0=case["L0"], x0=snp.array(x0), step_size=pol, maxiter=case["steps"])
@@ -350,7 +370,7 @@ def run_real(case):
             # what the policy remembers after the call must be (v, ∇f(v))
             cur["stored_ok"] = bool(
                 pol.xprev is not None
-                and np.array_equal(np.asarray(pol.xprev), np.asarray(v))
+                and np.array_equal(np.asarray(pol.xprev), np.asarray(v), equal_nan=True)
                 and np.allclose(np.asarray(pol.gradprev), np.asarray(gv), rtol=1e-12, atol=0, equal_nan=True)
             )
             shadow["prev"] = (v, gv)
@@ -400,10 +420,19 @@ def np_problem(case):
     b = np.asarray(case["b"], dtype=np.float64)
     c = case["c"]
 
+    w = float(case.get("barrier", 0.0))
+
     def f(x):
-        return 0.5 * x @ (Q @ x) + b @ x + c
+        val = 0.5 * x @ (Q @ x) + b @ x + c
+        if w:
+            with np.errstate(all="ignore"):
+                val = val - w * float(np.sum(np.log(x)))
+        return val
 
     def grad(x):
+        if w:
+            with np.errstate(all="ignore"):
+                return Q @ x + b - w / x
         return Q @ x + b
 
     def prox(v, lam):
@@ -425,9 +454,15 @@ def np_magnitude(case):
     ba = np.abs(np.asarray(case["b"], dtype=np.float64))
     ca = abs(case["c"])
 
+    w = abs(float(case.get("barrier", 0.0)))
+
     def fmag(x):
         xa = np.abs(x)
-        return float(0.5 * xa @ (Qa @ xa) + ba @ xa + ca)
+        m = float(0.5 * xa @ (Qa @ xa) + ba @ xa + ca)
+        if w:
+            with np.errstate(all="ignore"):
+                m += w * float(np.nansum(np.abs(np.log(xa + 1e-300))))
+        return m
 
     return fmag
 
